@@ -76,6 +76,31 @@ CHECKS: dict[str, dict] = {
         technique="crash-point enumeration on the real asyncio loop: task.cancel() of the closing task and a second aclose() injected at every loop-iteration boundary of every close path, crossed with leaf-transport faults (raise / slow / block forever) and peer behaviours (reads later / never)",
         text="For every close path and every injected cancellation point and leaf fault: when the closing task has finished (returned, raised, cancelled) every leaf transport / socket is closed, is_closing() is true, a concurrent second close returns no later than 3 iterations after the first, a later close returns at once; both halves of a stapled pair are closed even if closing the first fails.",
     ),
+    "C08": dict(
+        cat="exploration", ref="DESIGN.md §3 C08, §2 E7", engine="E7 tlsrig + E2 vloop (+ E3 for the blocking transport)",
+        technique="stateless schedule enumeration of the real TLS transports against an independent stdlib SSLObject peer through a byte-level ciphertext relay: every write-script pair, deviation-bounded partial deliveries at every relay step, uniform fragmentations, both directions concurrently",
+        text="Plaintext read by each side equals the concatenation of the other side's writes for every explored fragmentation/delay pattern with both directions active; handshake and transfers finish; a marker placed in every plaintext write never reaches the wrapped transport. Complete within the stated deviation bounds and uniform fragmentations (the full product is exponential and is not claimed).",
+    ),
+    "C09": dict(
+        cat="fault_enumeration", ref="DESIGN.md §3 C09, §2 E7", engine="E7 tlsrig",
+        technique="fault enumeration: raw EOF injected at every byte offset (thorough) / every structural offset (quick) of the peer-to-library ciphertext stream of a fixed session, x standard_compatible x TLS 1.2/1.3 x client/server x async (in-memory leaf, real asyncio adapter) and blocking transports, plus cuts of the peer's answer to our close_notify",
+        text="In standard-compatible mode a cut before the end of the peer's close_notify is never reported as a clean end-of-stream (transport and endpoint level), plaintext of fully delivered records is still readable first, a cut inside the handshake makes wrap() raise with the wrapped transport closed; without standard-compatible mode an abrupt end is end-of-stream; closing sends close_notify.",
+    ),
+    "C15": dict(
+        cat="exploration", ref="DESIGN.md §3 C15", engine="mc/srvrig.py on E2 vloop",
+        technique="stateless schedule enumeration of the real AsyncTCPNetworkServer / AsyncStreamServer on fake listener sockets against a lock-step reference model: all chunkings (<= 3 cuts + uniform), chunk/disconnect placement at loop-iteration boundaries, timed arrivals kept away from deadlines, enumerated handler shapes",
+        text="For every explored request stream, chunking, arrival schedule and handler shape each request reaches the handler exactly once and in order across generator restarts, a malformed frame is thrown at its position and later frames still arrive, TimeoutError only when no complete frame arrived in time, the active generator is closed exactly once and the connection is closed on disconnect/close.",
+    ),
+    "C16": dict(
+        cat="exploration", ref="DESIGN.md §3 C16", engine="mc/srvrig.py on E2 vloop",
+        technique="stateless schedule enumeration of the real AsyncUDPNetworkServer / AsyncDatagramServer on a fake datagram socket against a per-address FIFO single-server reference: every arrival sequence over two addresses, free placement at loop-iteration boundaries, enumerated handler shapes",
+        text="Per address datagrams are handled exactly once in arrival order, at most one handler generator is alive per address, everything queued is eventually handled (by the running or a fresh generator), a slow handler of one address does not delay the other, for all explored interleavings within the stated bounds.",
+    ),
+    "C17": dict(
+        cat="fault_enumeration", ref="DESIGN.md §3 C17", engine="mc/srvrig.py on E2 vloop",
+        technique="fault enumeration on the real TCP/UDP servers: 9 exception classes x 9 hook positions x connection set-up faults, with 1-2 healthy clients whose exchanges are interleaved with the faulty client's",
+        text="After every injected failure the server keeps serving, every healthy client gets every response, the faulty TCP client's socket is closed and its disconnection hook runs iff documented, a later datagram from the faulty UDP address gets a fresh handler, and no socket leaks. TLS-listener handshake faults are not covered.",
+    ),
 }
 
 NOT_YET: dict[str, str] = {}
@@ -120,6 +145,8 @@ def main() -> None:
             {"name": "E0 core", "path": "mc/core.py", "serves_properties": props, "kind_free_text": "choice-point explorer (deviation-bounded DFS by re-execution), job runner, evidence/replay/known-findings plumbing"},
             {"name": "E1 world", "path": "mc/world.py", "serves_properties": ["C03", "C04", "C05", "C10", "C11", "C12", "C14", "C15", "C16", "C17", "C18", "C19", "C20"], "kind_free_text": "virtual clock, pipes, FakeSocket (socket.socket subclass, in-memory I/O whose answers the explorer chooses), VSelector"},
             {"name": "E2 vloop", "path": "mc/vloop.py", "serves_properties": ["C04", "C10", "C12", "C13", "C14", "C15", "C16", "C17", "C18", "C19", "C20"], "kind_free_text": "the stock asyncio SelectorEventLoop driven by the virtual world"},
+            {"name": "E7 tlsrig", "path": "mc/tlsrig.py", "serves_properties": ["C08", "C09"], "kind_free_text": "Ed25519 test certificate, independent stdlib SSLObject peer, byte-level ciphertext relay (fragment / cut / hold), in-memory leaf transport, blocking variant over a socketpair"},
+            {"name": "srvrig", "path": "mc/srvrig.py", "serves_properties": ["C15", "C16", "C17"], "kind_free_text": "real EasyNetwork servers on fake listener / datagram sockets, scripted peers placed at loop-iteration boundaries, handler recorder"},
             {"name": "E5 chunkmc", "path": "mc/chunkmc.py", "serves_properties": ["C01", "C02", "C03", "C05", "C06", "C07"], "kind_free_text": "explicit-state search over the real stream consumers with canonical heap fingerprints"},
         ],
         "checks": checks,
